@@ -36,11 +36,13 @@
     the history — `prologueBuffer`, `attrsSeqB` (the interpolation loop over `buffer.len()`),
     `bufferAfter` — and must reproduce every attribute bit for bit.  `ok <nverts>` or
     `fail stroke-attrs/model-vs-impl generic …`.
-  * `stroke_reuse:32`  `<ncalls> ( F <refuse k+1 | 0> <m> <tol> <width> <miter_limit> <join> <cap> <cap> <variable 0/1>
+  * `stroke_reuse:32`  (every call: after `<m>` come `<times 1|2|0>` = the geometry builder refuses that vertex
+        once / twice / from then on, and `<ctor panic j+1 | 0>` = the vertex constructor panics at vertex j)
+        `<ncalls> ( F <refuse k+1 | 0> <m> <tol> <width> <miter_limit> <join> <cap> <cap> <variable 0/1>
                                     <fw_ids 0/1> <nattr> <nev> (events of C05's `fulle`)*
                                 | G <refuse k+1 | 0> <m> <bld|drop|rejected> <tol> <width> <miter_limit> <join> <cap> <cap>
                                     <variable 0/1> <nattr> <ncmd> (commands of C05's `prog`)* )*`
-        → per call `call ok|err|dropped V <n> (<vertex, all accessors> A <k> <attr>{k})* T <m> (a b c)*` or
+        → per call `call ok|err|dropped R <refused add_stroke_vertex calls> V <n> (<vertex, all accessors> A <k> <attr>{k})* T <m> (a b c)*` or
         `call panic`: the COMPLETE stroker model as a long-lived object.  The model side runs
         `Full.strokeObjF` (`Model/Tess/ResetStrokeFull.lean`) over the whole history from `StrokeT.new`: every
         call is `strokeCallF t c` with `t` = the object (attribute buffer, builder store) the MODEL of the
@@ -400,26 +402,29 @@ def rdOpts (v : Array String) (i : Nat) : Opts α :=
   ⟨rd v i, rd v (i+1), rd v (i+2), sJoinOf (v.getD (i+3) ""), sCapOf (v.getD (i+4) ""), sCapOf (v.getD (i+5) ""),
    rdB v (i+6), 0⟩
 
-/-- the calls of a history -/
+/-- the calls of a history.  Every call starts `F|G <refuse k+1 | 0> <m> <times 1|2|0 = from then on>
+<ctor panic j+1 | 0>`; `times` is not read: nothing is attempted after the first refusal -/
 def rdCallsF (v : Array String) : Nat → Nat → List (CallF α)
   | 0, _ => []
   | n+1, i =>
     let k := rdNat v (i+1)
     let refuse : Option (Nat × Nat) := if k == 0 then none else some (k - 1, rdNat v (i+2))
+    let pj := rdNat v (i+4)
+    let ctorPanic : Option Nat := if pj == 0 then none else some (pj - 1)
     if v.getD i "" == "F" then
-      let o : Opts α := rdOpts v (i+3)
-      let fwIds := rdB v (i+10)
-      let nattr := rdNat v (i+11)
-      let ev := rdEventsI (α := α) v nattr (rdNat v (i+12)) (i+13)
+      let o : Opts α := rdOpts v (i+5)
+      let fwIds := rdB v (i+12)
+      let nattr := rdNat v (i+13)
+      let ev := rdEventsI (α := α) v nattr (rdNat v (i+14)) (i+15)
       let body : BodyF α := if fwIds then .fw o (ev.1.1.map toPathEvS) else .ids o nattr ev.1.1 ev.1.2
-      ⟨body, refuse⟩ :: rdCallsF v n ev.2
+      ⟨body, refuse, ctorPanic⟩ :: rdCallsF v n ev.2
     else
-      let kind := v.getD (i+3) ""
-      let o : Opts α := rdOpts v (i+4)
-      let nattr := rdNat v (i+11)
-      let cm := rdCmdsI (α := α) v nattr (rdNat v (i+12)) (i+13)
+      let kind := v.getD (i+5) ""
+      let o : Opts α := rdOpts v (i+6)
+      let nattr := rdNat v (i+13)
+      let cm := rdCmdsI (α := α) v nattr (rdNat v (i+14)) (i+15)
       let body : BodyF α := if kind == "rejected" then .rejected else .prog o nattr (kind == "drop") cm.1
-      ⟨body, refuse⟩ :: rdCallsF v n cm.2
+      ⟨body, refuse, ctorPanic⟩ :: rdCallsF v n cm.2
 
 def fSideS : Side → String
   | .positive => "P"
@@ -438,7 +443,7 @@ def fOutF (o : OutF α) : String :=
   | .panic => "call panic"
   | oc =>
     let w := match oc with | .ok => "ok" | .err => "err" | .dropped => "dropped" | .panic => "panic"
-    unwords (["call", w, "V", toString o.verts.length]
+    unwords (["call", w, "R", toString o.refusals, "V", toString o.verts.length]
       ++ (o.verts.zip o.attrs).map (fun (d, a) => unwords ([fVtxS d.read, "A", toString a.length] ++ a.map fx))
       ++ ["T", toString o.tris.length]
       ++ o.tris.map (fun t => toString t.1 ++ " " ++ toString t.2.1 ++ " " ++ toString t.2.2))
